@@ -20,9 +20,12 @@ open OV.C17 OV.Gen.C17
 
 /-- **Every cell, for every name whatsoever.**  For each generated class `c` and each operator name `n`
 (in the tables or not), what `getattr(c, n)` resolves to on the generated classes and what
-`onnx.defs.get_schema(n, c.version, c.domain)` answers stand in the relation `cellOk`. -/
+`onnx.defs.get_schema(n, c.version, c.domain)` answers stand in the relation `cellOk`, where the only
+cells allowed to pair a deprecated schema with a live inherited method are the listed `deprecatedLive`
+(finding C17-F1; the list is empty once the generator emits stubs). -/
 theorem cell_all (c : Cls) (hc : c ∈ classes) (n : Nat) :
-    cellOk false (lookup schemas c.domain c.version n) (resolve classes c.domain c.version n) = true := by
+    cellOk false (deprecatedLive.contains (c.domain, c.version, n))
+      (lookup schemas c.domain c.version n) (resolve classes c.domain c.version n) = true := by
   have hgen : ungeneratedDomains.contains c.domain = false := by
     have := List.all_eq_true.mp classes_generated c hc
     simpa using this
@@ -54,14 +57,15 @@ theorem cell_all (c : Cls) (hc : c ∈ classes) (n : Nat) :
     rw [h1, h2]; rfl
 
 /-- **methods_mirror.**  Whatever method `OpsetN.n` resolves to (own or inherited), `get_schema(n, N, domain)`
-finds a schema in force at `N`, and — unless that schema is marked deprecated — the method is exactly what
-the generator's rule yields for *that* schema: it calls `get_schema` with that schema's name,
-since_version and domain, takes the inputs in order then the attributes as keyword-only parameters,
-optional inputs default to `None`, attribute defaults equal the schema defaults, and every argument is
-forwarded under its own name (`mirrors`). -/
+finds a schema in force at `N`, and — unless that schema is marked deprecated — the method is a live one
+(not a raising stub) and exactly what the generator's rule yields for *that* schema: it calls `get_schema`
+with that schema's name, since_version and domain, takes the inputs in order then the attributes as
+keyword-only parameters, optional inputs default to `None`, attribute defaults equal the schema defaults,
+and every argument is forwarded under its own name (`mirrors`). -/
 theorem methods_mirror (c : Cls) (hc : c ∈ classes) (n : Nat) (m : Method)
     (hm : resolve classes c.domain c.version n = some m) :
-    ∃ s, lookup schemas c.domain c.version n = some s ∧ (s.deprecated = false → mirrors m s = true) := by
+    ∃ s, lookup schemas c.domain c.version n = some s ∧
+      (s.deprecated = false → m.stub = false ∧ mirrors m s = true) := by
   have h := cell_all c hc n
   rw [hm] at h
   cases hl : lookup schemas c.domain c.version n with
@@ -73,11 +77,11 @@ theorem methods_mirror (c : Cls) (hc : c ∈ classes) (n : Nat) (m : Method)
     simpa [cellOk, hd] using h
 
 /-- **methods_complete.**  Every non-deprecated schema in force at the version of a generated class has a
-method on that class, and it mirrors the schema.  (The only domain of `onnx.defs` without classes is the
-listed `ungeneratedDomains` = `ai.onnx.preview.training`, see `domains_complete`.) -/
+live method on that class, and it mirrors the schema.  (The only domain of `onnx.defs` without classes is
+the listed `ungeneratedDomains` = `ai.onnx.preview.training`, see `domains_complete`.) -/
 theorem methods_complete (c : Cls) (hc : c ∈ classes) (n : Nat) (s : Schema)
     (hs : lookup schemas c.domain c.version n = some s) (hd : s.deprecated = false) :
-    ∃ m, resolve classes c.domain c.version n = some m ∧ mirrors m s = true := by
+    ∃ m, resolve classes c.domain c.version n = some m ∧ m.stub = false ∧ mirrors m s = true := by
   have h := cell_all c hc n
   rw [hs] at h
   cases hr : resolve classes c.domain c.version n with
@@ -98,10 +102,46 @@ theorem domains_complete (s : Schema) (hs : s ∈ schemas) (hu : s.domain ∉ un
   · exact absurd h hu
   · exact ⟨c, hc, h1, h2⟩
 
-/-- **dynamic_eq_static (partial).**  `Opset.__getattr__/__getitem__/__contains__` (which call
-`get_schema(n, version, domain)`) and the generated method denote the same schema — for every class and
-every name for which the schema in force is not marked deprecated.  The hypothesis is forced: see
-`dynamic_eq_static_full_refuted`. -/
+/-- **dynamic_eq_static.**  For every generated class (every domain: `''`, `ai.onnx.ml`, `ai.onnx.preview`)
+and every operator name, outside the listed cells `deprecatedLive`: what `Opset.__getitem__/__getattr__/
+__contains__` answer (`get_schema(n, version, domain)`) and what the class offers statically `agree` — both
+nothing; or a live method binding exactly that schema's name, since_version and domain; or, for a schema
+marked deprecated, nothing callable (no method, or a raising stub). -/
+theorem dynamic_eq_static (c : Cls) (hc : c ∈ classes) (n : Nat)
+    (hl : (c.domain, c.version, n) ∉ deprecatedLive) :
+    agrees (lookup schemas c.domain c.version n) (resolve classes c.domain c.version n) = true := by
+  have h := cell_all c hc n
+  have hl' : deprecatedLive.contains (c.domain, c.version, n) = false := by
+    cases hc' : deprecatedLive.contains (c.domain, c.version, n) with
+    | false => rfl
+    | true => exact absurd (List.contains_iff_mem.mp hc') hl
+  rw [hl'] at h
+  cases hlk : lookup schemas c.domain c.version n with
+  | none =>
+    rw [hlk] at h
+    cases hr : resolve classes c.domain c.version n with
+    | none => rfl
+    | some m => rw [hr] at h; simp [cellOk] at h
+  | some s =>
+    rw [hlk] at h
+    cases hr : resolve classes c.domain c.version n with
+    | none =>
+      rw [hr] at h
+      simpa [cellOk, agrees] using h
+    | some m =>
+      rw [hr] at h
+      cases hd : s.deprecated with
+      | true => simpa [cellOk, agrees, hd] using h
+      | false =>
+        simp only [cellOk, hd, Bool.false_eq_true, if_false, Bool.and_eq_true, Bool.not_eq_true'] at h
+        have hmir := h.2
+        simp only [mirrors, Bool.and_eq_true, beq_iff_eq] at hmir
+        rcases hmir with ⟨⟨⟨⟨⟨⟨⟨⟨⟨⟨⟨⟨_, _⟩, _⟩, h1⟩, h2⟩, h3⟩, _⟩, _⟩, _⟩, _⟩, _⟩, _⟩, _⟩
+        simp [agrees, hd, h.1, h1, h2, h3]
+
+/-- The same in the form of the property text, for names whose schema in force is not deprecated: the
+generated method and the dynamic lookup bind the same (name, since_version, domain).  No exception list
+is needed here — a `deprecatedLive` cell always has a deprecated schema in force. -/
 theorem dynamic_eq_static_partial (c : Cls) (hc : c ∈ classes) (n : Nat)
     (hdep : ∀ s, lookup schemas c.domain c.version n = some s → s.deprecated = false) :
     (resolve classes c.domain c.version n).map Method.call =
@@ -115,24 +155,106 @@ theorem dynamic_eq_static_partial (c : Cls) (hc : c ∈ classes) (n : Nat)
     | some m => rw [hr] at h; simp [cellOk] at h
   | some s =>
     have hd := hdep s hl
-    rcases methods_complete c hc n s hl hd with ⟨m, hm, hmir⟩
+    rcases methods_complete c hc n s hl hd with ⟨m, hm, _, hmir⟩
     rw [hm]
     simp only [mirrors, Bool.and_eq_true, beq_iff_eq] at hmir
     simp only [Option.map_some, Schema.key, Option.some.injEq]
     rcases hmir with ⟨⟨⟨⟨⟨⟨⟨⟨⟨⟨⟨⟨_, _⟩, _⟩, h1⟩, h2⟩, h3⟩, _⟩, _⟩, _⟩, _⟩, _⟩, _⟩, _⟩
     exact Prod.ext h1 (Prod.ext h2 h3)
 
-/-- The full statement (no deprecation hypothesis) is false on the unchanged tree: `Upsample` is
-deprecated from opset 10 on, the generator emits nothing for it in `Opset10`, and `Opset10` *inherits*
-`Opset9.Upsample`, which binds `get_schema("Upsample", 9, "")`, while `opset10["Upsample"]` (what the
-converter uses) is the deprecated `Upsample(10)` schema. -/
-theorem dynamic_eq_static_full_refuted :
-    ¬ (∀ c ∈ classes, ∀ n, (resolve classes c.domain c.version n).map Method.call =
-        (lookup schemas c.domain c.version n).map Schema.key) := by
-  intro h
-  have := h cls_Opset10 (by simp [classes]) 24603291626610125925 -- enc "Upsample"
-  revert this
-  decide +kernel
+/-- **Finding C17-F1, exactly.**  On each listed cell the unrestricted statement is false: a deprecated
+schema is in force, attribute lookup still reaches a live method of an older version, and that method binds
+a different schema than the dynamic lookup answers with (e.g. `Opset10.Upsample` → `get_schema("Upsample",
+9, "")` vs `opset10["Upsample"]` = deprecated `Upsample(10)`).  With `dynamic_eq_static` this says the
+listed cells are *exactly* the cells where static and dynamic disagree.  (On the unchanged tree the list has
+37 entries — `OV.Gen.C17.deprecatedLive`; after the proposed generator fix it is empty and this is vacuous.) -/
+theorem deprecated_live_cells_disagree (x : Nat × Nat × Nat) (hx : x ∈ deprecatedLive) :
+    ∃ s m, lookup schemas x.1 x.2.1 x.2.2 = some s ∧ resolve classes x.1 x.2.1 x.2.2 = some m ∧
+      s.deprecated = true ∧ m.stub = false ∧ m.call ≠ s.key ∧ agrees (some s) (some m) = false := by
+  have h := List.all_eq_true.mp deprecatedLive_exact x hx
+  unfold depLiveWitness at h
+  cases hl : lookup schemas x.1 x.2.1 x.2.2 with
+  | none => rw [hl] at h; simp at h
+  | some s =>
+    cases hr : resolve classes x.1 x.2.1 x.2.2 with
+    | none => rw [hl, hr] at h; simp at h
+    | some m =>
+      rw [hl, hr] at h
+      simp only [Bool.and_eq_true, Bool.not_eq_true'] at h
+      refine ⟨s, m, rfl, rfl, h.1.1, h.1.2, ?_, ?_⟩
+      · intro hk
+        have h2 := h.2
+        simp only [Schema.key] at hk
+        rw [hk] at h2
+        simp at h2
+      · simp [agrees, h.1.1, h.1.2]
+
+/-- **Every argument is forwarded under its own name, by every generated method** (all 630, whether or not a
+schema is in force for it anywhere): the body passes the positional parameters in order, then `*vararg`, through
+`self._prepare_inputs(schema, …)`, and each keyword-only parameter `k` as `k=k` — no parameter dropped, renamed,
+swapped or replaced by an expression. -/
+theorem every_argument_forwarded (c : Cls) (hc : c ∈ classes) (m : Method) (hm : m ∈ c.methods)
+    (hs : m.stub = false) :
+    m.fwdInputs = expectedFwdInputs m ∧ (m.usesPrepare = true ∨ m.fwdInputs = []) ∧
+      m.fwdAttrs = m.kwonly.map (fun p => (p.1, p.1)) := by
+  have h := List.all_eq_true.mp (List.all_eq_true.mp forwarding_ok c hc) m hm
+  simp only [forwardsOwnParams, hs, Bool.false_or, Bool.and_eq_true, Bool.or_eq_true,
+    List.isEmpty_iff] at h
+  exact ⟨natBoolList_beq_eq h.1.1, h.1.2, natPairList_beq_eq h.2⟩
+
+/-! ## dynamic lookup depends on (domain, version, name) only — over all histories, all domains -/
+
+/-- **lookup_history_independent.**  Take any registry, any history `h₁` of `Opset(...)` constructions and
+dynamic lookups from a fresh process, then obtain the opset object for `(cls, d, v)` (created now or cached
+by anything in `h₁`), then let any further history `h₂` happen.  The object carries `domain = d`,
+`version = v`, and `opset[n]`, `n in opset`, `Opset.__getattr__(opset, n)` answer exactly
+`get_schema(n, v, d)` — a function of `(d, v, n)` alone: nothing looked up before, in this or any other
+version or domain, can change the answer. -/
+theorem lookup_history_independent (reg : List Schema) (h₁ h₂ : List Cmd) (cls d v n : Nat) :
+    let st₁ := (run reg OState.empty h₁).1
+    let r := step reg st₁ (.new cls d v)
+    ∃ i, r.2 = .inst i d v ∧
+      let st₂ := (run reg r.1 h₂).1
+      (step reg st₂ (.getitem i n)).2 = .op ((lookup reg d v n).map Schema.key) ∧
+      (step reg st₂ (.contains i n)).2 = .bool (lookup reg d v n).isSome ∧
+      (step reg st₂ (.getattr i n)).2 =
+        (match lookup reg d v n with | some s => .op (some s.key) | none => .attributeError) ∧
+      (step reg st₂ (.new cls d v)).2 = .inst i d v := by
+  intro st₁ r
+  have hwf : WF st₁ := run_wf reg _ h₁ WF_empty
+  rcases new_gives reg st₁ hwf cls d v with ⟨i, hr, hi, hcache⟩
+  refine ⟨i, hr, ?_⟩
+  intro st₂
+  have hi₂ : st₂.insts[i]? = some ⟨cls, d, v⟩ := run_keeps reg _ h₂ i _ hi
+  have hc₂ : cacheGet (cls, d, v) st₂.cache = some i := run_keeps_cache reg _ h₂ _ i hcache
+  refine ⟨?_, ?_, ?_, ?_⟩
+  · simp only [step, hi₂]
+  · simp only [step, hi₂]
+  · simp only [step, hi₂]
+    cases lookup reg d v n <;> rfl
+  · simp only [step, hc₂, hi₂]
+
+/-- Lookups never cross domains: an answer of `get_schema(n, N, d)` is a schema registered under exactly
+domain `d` and name `n`, in force at `N` … -/
+theorem lookup_respects_domain (reg : List Schema) (d N n : Nat) (s : Schema)
+    (h : lookup reg d N n = some s) : s ∈ reg ∧ s.domain = d ∧ s.name = n ∧ s.since ≤ N :=
+  lookup_some h
+
+/-- … so in a domain without registered schemas (a custom domain, `Opset("my.domain", 1)`) every dynamic
+lookup fails, whatever the name and version — `'Abs' in Opset("my.domain", 1)` is `False`. -/
+theorem lookup_unknown_domain (reg : List Schema) (d : Nat) (hd : ∀ s ∈ reg, s.domain ≠ d) (N n : Nat) :
+    lookup reg d N n = none := by
+  cases h : lookup reg d N n with
+  | none => rfl
+  | some s => exact absurd (lookup_some h).2.1 (hd s (lookup_some h).1)
+
+/-- and a name of another domain is not found: `'Abs' in opset_ai_onnx_ml3`, `'LabelEncoder' in opset18` are
+`False` exactly because no schema of that (domain, name) is registered. -/
+theorem lookup_other_domains_name (reg : List Schema) (d N n : Nat)
+    (h : ∀ s ∈ reg, ¬ (s.domain = d ∧ s.name = n)) : lookup reg d N n = none := by
+  cases hl : lookup reg d N n with
+  | none => rfl
+  | some s => exact absurd ⟨(lookup_some hl).2.1, (lookup_some hl).2.2.1⟩ (h s (lookup_some hl).1)
 
 /-- The generated classes of a domain form the inheritance chain `Opset_d1(Opset) ← Opset_d2 ← …` with
 consecutive versions, one class per file, with `Opset.__new__(cls, d, N)` literals `(d, N)` unique per
@@ -441,6 +563,31 @@ example :
     separate [⟨1, true, false, true, none⟩, ⟨2, true, false, true, none⟩, ⟨3, true, false, false, none⟩,
               ⟨4, false, false, false, some 900⟩, ⟨5, false, false, false, some 901⟩]
       [10, 11] [(5, 12)] true false true = .ok ([10, 11], [(4, 900), (5, 12)]) := ⟨rfl, rfl⟩
+
+
+/-! ### non-vacuity of the history / domain theorems (`enc "BitwiseAnd"` = 1522547307904140230880868,
+`enc "ai.onnx.ml"` = 1668935622595193164688748, `enc "LabelEncoder"` = 102866753728027417819308385650,
+`enc "Abs"` = 21062259, `enc "my.domain"` = 6741793614061243558254, `enc "Opset"` = 1440700654964) -/
+
+/-- the history of seeded change C17-4, on the model: probing `BitwiseAnd` in opset 13 (absent) does not
+change the later answers in opset 18 (present), nor the other way round; `Opset("", 13)` is a singleton -/
+example :
+    (run schemas OState.empty
+      [.new 1440700654964 1 13, .contains 0 1522547307904140230880868,
+       .new 1440700654964 1 18, .contains 1 1522547307904140230880868, .getitem 1 1522547307904140230880868,
+       .contains 0 1522547307904140230880868, .getattr 0 1522547307904140230880868,
+       .new 1440700654964 1 13]).2 =
+      [.inst 0 1 13, .bool false, .inst 1 1 18, .bool true, .op (some (1522547307904140230880868, 18, 1)),
+       .bool false, .attributeError, .inst 0 1 13] := by decide +kernel
+
+/-- non-default domains: `opset_ai_onnx_ml3.LabelEncoder` — static and dynamic agree on a live schema;
+`'Abs' in opset_ai_onnx_ml3` is `False`; nothing is found in the custom domain `my.domain` -/
+example :
+    agrees (lookup schemas 1668935622595193164688748 3 102866753728027417819308385650)
+      (resolve classes 1668935622595193164688748 3 102866753728027417819308385650) = true ∧
+    (lookup schemas 1668935622595193164688748 3 102866753728027417819308385650).isSome = true ∧
+    lookup schemas 1668935622595193164688748 3 21062259 = none ∧
+    (∀ s ∈ schemas, s.domain ≠ 6741793614061243558254) := by decide +kernel
 
 /-! ### non-vacuity: concrete instances of the hypotheses above (names: `enc "Softmax"` = 95542502935585144,
 `enc "Clip"` = 5426145648, `enc "axis"` = 5930248563, `enc "Loop"` = 5577338736) -/
